@@ -52,7 +52,8 @@ REQUIRED_COUNTERS = ['deformed_objects', 'rows_relabelled_and_compared',
                      'joint_laws_compared', 'histories_checked',
                      'history_steps', 'permutation_queries',
                      'same_object_axis_queries', 'hadamard_helper_masks',
-                     'copies_of_deformed_objects_judged']
+                     'copies_of_deformed_objects_judged',
+                     'error_probabilities_compared']
 
 LET2BITS = {'I': (0, 0), 'X': (1, 0), 'Y': (1, 1), 'Z': (0, 1)}
 BITS2LET = {v: k for k, v in LET2BITS.items()}
@@ -217,6 +218,44 @@ def check_deformation(out, cls, size, name, kwargs, rng, tier):
             else:
                 continue
             break
+    # (iv-b) whole errors: the deformed model gives e the probability the
+    # plain model gives D(e); the caller's array (here also a row of the
+    # code's own logicals) is evaluated twice and must read the same after
+    import math
+    for direction in ((0.5, 0.3, 0.2), (0.1, 0.2, 0.7)):
+        plain = PauliErrorModel(*direction)
+        defd = PauliErrorModel(*direction, deformation_name=name,
+                               deformation_kwargs=dict(kwargs) if kwargs
+                               else None)
+        rows = [np.asarray(base.logicals_x[0]), np.asarray(base.logicals_z[0])]
+        rows += [(rng.random(2 * n) < 0.3).astype('uint8') for _ in range(3)]
+        Lx0 = np.array(base.logicals_x, copy=True)
+        for arr in rows:
+            e_int = gf2.pack(arr)
+            De = gf2.unpack(relabel(e_int, perm, n), 2 * n)
+            snap = arr.tobytes()
+            for p_, lg in ((0.3, False), (0.05, True), (0.3, False)):
+                out.count('error_probabilities_compared')
+                got = float(defd.error_probability(arr, base, p_,
+                                                   log_output=lg))
+                want = float(plain.error_probability(De.copy(), base, p_,
+                                                     log_output=lg))
+                if arr.tobytes() != snap:
+                    out.violation(f'{mech}/error_probability-modifies-'
+                                  'its-argument', 'the error passed to '
+                                  'error_probability reads differently '
+                                  'after the call', desc)
+                    break
+                if not (got == want or math.isclose(got, want, rel_tol=1e-9,
+                                                    abs_tol=1e-300)):
+                    out.violation(f'{mech}/error_probability-of-image',
+                                  f'P_def(e)={got!r} but P(D e)={want!r} '
+                                  f'(p={p_}, log={lg})', desc)
+                    break
+        if not np.array_equal(np.asarray(base.logicals_x), Lx0):
+            out.violation(f'{mech}/logicals-changed-by-error_probability',
+                          'code.logicals_x changed after its rows were '
+                          'passed to error_probability', desc)
     # (v) the library's Hadamard helper applied to the undeformed rows with
     # the qubit mask in any form a caller may hold it in gives the same code
     ident = {'X': 'X', 'Y': 'Y', 'Z': 'Z'}
